@@ -175,9 +175,9 @@ func Project(doc bson.D, proj bson.D) (bson.D, error) {
 			} else if start > n {
 				start = n
 			}
-			end := start + s.limit
-			if end > n {
-				end = n
+			end := n
+			if s.limit < n-start {
+				end = start + s.limit
 			}
 			out = append(bson.A{}, arr[start:end]...)
 		} else {
@@ -191,9 +191,8 @@ func Project(doc bson.D, proj bson.D) (bson.D, error) {
 					out = append(bson.A{}, arr...)
 				}
 			default:
-				k := -s.n
-				if k < n {
-					out = append(bson.A{}, arr[n-k:]...)
+				if s.n > -n {
+					out = append(bson.A{}, arr[n+s.n:]...)
 				} else {
 					out = append(bson.A{}, arr...)
 				}
